@@ -38,17 +38,37 @@ package ir
 //@   ensures [C03.hoist] result ==> builtinName(call) == "len" || builtinName(call) == "cap" || builtinName(call) == "complex" || builtinName(call) == "real" || builtinName(call) == "imag" || builtinName(call) == "min" || builtinName(call) == "max"
 //@   ensures [C03.hoist] result && (builtinName(call) == "len" || builtinName(call) == "cap") && len(call.Call.Args) > 0 ==> !hasType(underT(typeOfV(call.Call.Args[0])), "*types.Map") && !hasType(underT(typeOfV(call.Call.Args[0])), "*types.Chan")
 
-// ---- C03 / C02: how a reference to a function is rendered into the canonical IR
-// A callee must be rendered by its full identity (package path, receiver, name): two functions that differ only in
-// their package must not render alike.  KNOWN FINDING (open): the rendering uses the bare name.
-// A reference to the function being canonicalised must not leak that function's own name (renaming a recursive
-// function would change its fingerprint).  KNOWN FINDING (open): the name is rendered.
+// ---- C03 / C04 / C02: how a reference to a function is rendered into the canonical IR
+// A callee outside the family of the function being canonicalised is rendered by its full identity (package path,
+// receiver, name: ssa.Function.String): two functions that differ only in their package must not render alike
+// (json.Marshal / xml.Marshal). A reference to the function being canonicalised itself is rendered as "self": renaming
+// a recursive function must not change its fingerprint. (Both were defects of the pinned tree, repaired by a fix:
+// commit; see /verif/known_findings.json.)
+//@ pred parentF(f *ssa.Function) = purecall("(*golang.org/x/tools/go/ssa.Function).Parent", f)
+//@ pred nameF(f *ssa.Function) = purecall("(*golang.org/x/tools/go/ssa.Function).Name", f)
+//@ pred stringF(f *ssa.Function) = purecall("(*golang.org/x/tools/go/ssa.Function).String", f)
+//@ pred parentI(i ssa.Instruction) = purecall("invoke:golang.org/x/tools/go/ssa.Instruction.Parent", i)
+//@ ufunc rootF(f *ssa.Function) *ssa.Function
+//@ axiom [family] forall f: *ssa.Function :: {rootF(f)} (parentF(f) == nil ==> rootF(f) == f) && (parentF(f) != nil ==> rootF(f) == rootF(parentF(f)))
+
+//@ func familyRoot
+//@   uses family
+//@   requires fn != nil
+//@   ensures result == rootF(old(fn))
+//@   loop 1 invariant fn != nil && rootF(fn) == rootF(pre(fn))
+
+//@ func funcRefName
+//@   uses family
+//@   requires fn != nil
+//@   ensures [C03.callee] [C04.norm] context == nil || parentI(context) == nil || rootF(fn) != rootF(parentI(context)) ==> result == stringF(fn)
+//@   ensures [C02.selfname] context != nil && parentI(context) != nil && fn == parentI(context) && parentF(fn) == nil ==> result == "self"
+
 //@ func (*Canonicalizer).NormalizeOperand
 //@   noframe
-//@   protocol-only C03 C02
+//@   protocol-only C03 C02 C04
 //@   requires [C02.naming] c != nil && c.registerMap != nil
-//@   return-ensures [C03.callee] typed(operand, "*ssa.Function") && !(iface(operand, "*ssa.Function") in c.registerMap) ==> contains(result, purecall("(*golang.org/x/tools/go/ssa.Function).String", operand))
-//@   return-ensures [C02.selfname] typed(operand, "*ssa.Function") && !(iface(operand, "*ssa.Function") in c.registerMap) && context != nil && operand == purecall("invoke:golang.org/x/tools/go/ssa.Instruction.Parent", context) ==> !contains(result, purecall("(*golang.org/x/tools/go/ssa.Function).Name", operand))
+//@   return-ensures [C03.callee] [C04.norm] typed(operand, "*ssa.Function") && !(iface(operand, "*ssa.Function") in c.registerMap) && (context == nil || parentI(context) == nil || rootF(operand) != rootF(parentI(context))) ==> contains(result, "<func_ref:" + stringF(operand) + ":")
+//@   return-ensures [C02.selfname] typed(operand, "*ssa.Function") && !(iface(operand, "*ssa.Function") in c.registerMap) && context != nil && parentI(context) != nil && operand == parentI(context) && parentF(operand) == nil ==> hasPrefix(result, "<func_ref:self:")
 
 // ---- C02: registers are named by position, never by source identifier; literals are abstracted per policy
 //@ func (*Canonicalizer).normalizeValue
